@@ -13,6 +13,7 @@ ASSUMPTIONS = ["reference semantics (sim/refsem.py) reads the documentation corr
                "fake peers return only genuine models of the clauses they receive"]
 BUDGET = {"quick": 300, "thorough": 900}
 RUNS = {"quick": 2500, "thorough": 200000}
+THOROUGH_RUNS = 5000        # the thorough tier of this (expensive) check: a fixed range sized to stay within ~15 minutes
 NCLASS = ["0", "1", "V-1", "V", "V+1", "3V"]
 
 
@@ -32,6 +33,8 @@ def gen_case(rs, tier):
             "strategy": krng.choice(["IterateSATGen", "RandomGen", "IterateGen"]),
             "nclasses": krng.sample(NCLASS, 2)}
     case["sweep"] = W.stream(rs, "sweep").random() < (0.15 if tier == "thorough" else 0.04)
+    if case["sweep"]:
+        case["timeout"] = 150        # one workload, run once per fault placement
     return case
 
 
@@ -77,7 +80,10 @@ def run_one(case):
                 continue     # C08
             ran += 1
             L = common.lib_multiset(m, res)
-            faulted = bool(w.fault_fired)
+            # a call that RETURNS must return min(n, available): an injected I/O error or engine failure makes the unchanged
+            # library raise or fall back to the other transport, never return a short list.  Only a solver that answered
+            # "unknown" ends the iteration early without an error (existing, documented behaviour of compute_solutions)
+            faulted = bool(w.fault_fired.get("peer.unknown")) or bool(w.counters.get("peer.limit-reached"))
             over = {k: v for k, v in L.items() if k in V and v > V[k]}
             if over:
                 k0 = sorted(over, key=repr)[0]
